@@ -71,19 +71,22 @@ func VP_C09_shared() {
 	vpFreezeGlobals()
 	vpFreeze("shared tree", tree)
 	// natively the goroutines run FIRST (a sequential warm-up would hide lazily initialised shared state)
-	const G = 4
+	const G = 8
 	results := make([]vpC09Result, G)
 	if !vpSymbolic() {
 		var wg sync.WaitGroup
+		start := make(chan struct{}) // barrier: the first operations of all goroutines overlap
 		for g := 0; g < G; g++ {
 			wg.Add(1)
 			go func(g int) {
 				defer wg.Done()
+				<-start
 				for it := 0; it < 20; it++ {
 					results[g] = vpC09Ops(tree, other)
 				}
 			}(g)
 		}
+		close(start)
 		wg.Wait()
 	}
 	seq := vpC09Ops(tree, other)
